@@ -956,4 +956,317 @@ theorem evalStr_render (cfg : Cfg) (rx : RxOracle) (ext : ExtOracle) (ctx : Ctx)
       | nil => rfl
       | cons v vs => cases vs <;> rfl
 
+/-! ## unknown `$`-words are rejected -/
+
+def isKw (v : Str) : Bool := v == kwUrl || v == kwMethod || v == kwStatusCode || v == kwRequest || v == kwResponse
+
+def startsDollar : Str → Bool
+  | c :: _ => c == '$'
+  | [] => false
+
+/-- variable-typed tokens start with `$` (true of everything the lexer emits) -/
+def VarOK (ts : List VT) : Prop := ∀ x ∈ ts, x.2 = .variable → startsDollar x.1 = true
+
+/-- `ts'` is what is left of `ts` after dropping a prefix without variable tokens -/
+def Consumed (ts ts' : List VT) : Prop := ∃ c, ts = c ++ ts' ∧ ∀ x ∈ c, x.2 ≠ .variable
+
+theorem Consumed.refl (ts : List VT) : Consumed ts ts := ⟨[], rfl, by simp⟩
+
+theorem Consumed.cons {x : VT} {r ts' : List VT} (hx : x.2 ≠ .variable) (h : Consumed r ts') :
+    Consumed (x :: r) ts' := by
+  obtain ⟨c, hc, hv⟩ := h
+  refine ⟨x :: c, by simp [hc], ?_⟩
+  intro y hy
+  simp at hy
+  rcases hy with rfl | hy
+  · exact hx
+  · exact hv y hy
+
+theorem VarOK_tail {x : VT} {r : List VT} (h : VarOK (x :: r)) : VarOK r :=
+  fun y hy => h y (by simp [hy])
+
+theorem not_variable_of_word (x : VT) (r : List VT) (h : VarOK (x :: r)) (hs : startsDollar x.1 = false) :
+    x.2 ≠ .variable := by
+  intro hv
+  have := h x (by simp) hv
+  rw [hs] at this
+  cases this
+
+theorem lexVT_varOK (n : Nat) (e : Str) (hn : e.length ≤ n) : VarOK (lexVT e) := by
+  induction n generalizing e with
+  | zero =>
+    have : e = [] := by cases e <;> simp_all
+    subst this; intro x hx; simp [lexVT_nil] at hx
+  | succ n ih =>
+    cases e with
+    | nil => intro x hx; simp [lexVT_nil] at hx
+    | cons c rest =>
+      have hr : rest.length ≤ n := by simpa using hn
+      have i1 := ih (afterRun isStop rest) (Nat.le_trans (afterRun_length_le _ _) hr)
+      have i2 := ih (afterRun isRBrace rest) (Nat.le_trans (afterRun_length_le _ _) hr)
+      have i3 := ih rest hr
+      rw [lexVT_cons]
+      intro x hx hv
+      by_cases h1 : (c == '$') = true
+      · simp only [h1, if_true, List.mem_cons] at hx
+        rcases hx with rfl | hx
+        · simpa [startsDollar] using h1
+        · exact i1 x hx hv
+      · by_cases h2 : (c == '.') = true
+        · simp only [h1, h2, if_true, if_false, Bool.false_eq_true, List.mem_cons] at hx
+          rcases hx with rfl | hx
+          · cases hv
+          · exact i3 x hx hv
+        · by_cases h3 : (c == '{') = true
+          · simp only [h1, h2, h3, if_true, if_false, Bool.false_eq_true, List.mem_cons] at hx
+            rcases hx with rfl | hx
+            · cases hv
+            · exact i3 x hx hv
+          · by_cases h4 : (c == '}') = true
+            · simp only [h1, h2, h3, h4, if_true, if_false, Bool.false_eq_true, List.mem_cons] at hx
+              rcases hx with rfl | hx
+              · cases hv
+              · exact i3 x hx hv
+            · by_cases h5 : (c == '#') = true
+              · simp only [h1, h2, h3, h4, h5, if_true, if_false, Bool.false_eq_true, List.mem_cons] at hx
+                rcases hx with rfl | hx
+                · cases hv
+                · exact i2 x hx hv
+              · simp only [h1, h2, h3, h4, h5, if_false, Bool.false_eq_true, List.mem_cons] at hx
+                rcases hx with rfl | hx
+                · cases hv
+                · exact i1 x hx hv
+
+theorem startsWith_regex_dollar (s : Str) (h : startsDollar s = true) : startsWith regexPrefix s = false := by
+  cases s with
+  | nil => simp [startsDollar] at h
+  | cons c w =>
+    simp only [startsDollar, beq_iff_eq] at h
+    subst h
+    rw [regexPrefix_eq]
+    simp [startsWith]
+
+theorem takeExtractorT_consumed (rx : RxOracle) (ts : List VT) (ex : Option Str) (ts' : List VT)
+    (hv : VarOK ts) (h : takeExtractorT rx ts = .ok (ex, ts')) : Consumed ts ts' := by
+  cases ts with
+  | nil => simp [takeExtractorT] at h; rw [← h.2]; exact Consumed.refl _
+  | cons x r =>
+    simp only [takeExtractorT] at h
+    by_cases h1 : headIsRBrace x.1 = true
+    · simp only [h1, if_true, Except.ok.injEq, Prod.mk.injEq] at h
+      rw [← h.2]; exact Consumed.refl _
+    · simp only [h1, Bool.false_eq_true, if_false] at h
+      by_cases h2 : startsWith regexPrefix x.1 = true
+      · have hx : x.2 ≠ .variable := by
+          intro hvx
+          have := startsWith_regex_dollar x.1 (hv x (by simp) hvx)
+          rw [h2] at this; cases this
+        simp only [h2, Bool.not_true, Bool.false_eq_true, if_false] at h
+        cases hrx : rx (List.drop regexPrefix.length x.1) with
+        | none => simp [hrx] at h
+        | some g =>
+          simp only [hrx] at h
+          by_cases hg : (g != 1) = true
+          · simp [hg] at h
+          · simp only [hg, Bool.false_eq_true, if_false, Except.ok.injEq, Prod.mk.injEq] at h
+            rw [← h.2]; exact Consumed.cons hx (Consumed.refl _)
+      · simp [h2] at h
+
+theorem parseBodyRefT_consumed (emb : Variant) (mk : Option Str → Node) (ts : List VT) (n : Node) (ts' : List VT)
+    (h : parseBodyRefT emb mk ts = .ok (n, ts')) : Consumed ts ts' := by
+  cases ts with
+  | nil => simp [parseBodyRefT] at h; rw [← h.2]; exact Consumed.refl _
+  | cons t r =>
+    simp only [parseBodyRefT] at h
+    by_cases h1 : (t.2 == TokType.pointer) = true
+    · simp only [h1, if_true, Except.ok.injEq, Prod.mk.injEq] at h
+      rw [← h.2]
+      exact Consumed.cons (by simp only [beq_iff_eq] at h1; rw [h1]; decide) (Consumed.refl _)
+    · simp only [h1, Bool.false_eq_true, if_false] at h
+      by_cases h2 : (emb == Variant.repaired && t.2 == TokType.rbracket) = true
+      · simp only [h2, if_true, Except.ok.injEq, Prod.mk.injEq] at h
+        rw [← h.2]; exact Consumed.refl _
+      · simp [h2] at h
+
+/-- the `skip_dot; take_string; take_extractor` tail consumes no variable token -/
+theorem namedTailT_consumed (rx : RxOracle) (mk : Str → Option Str → Node) (ts : List VT) (n : Node)
+    (ts' : List VT) (hv : VarOK ts)
+    (h : (match skipDotT ts with
+        | .error err => .error err
+        | .ok ts =>
+          match takeStringT ts with
+          | .error err => .error err
+          | .ok (p, ts) =>
+            match takeExtractorT rx ts with
+            | .error err => .error err
+            | .ok (ex, ts) => .ok (mk p ex, ts)) = Except.ok (n, ts')) : Consumed ts ts' := by
+  cases ts with
+  | nil => simp [skipDotT] at h
+  | cons d r =>
+    by_cases hd : (d.2 == TokType.dot) = true
+    · simp only [skipDotT, hd, if_true] at h
+      have hdv : d.2 ≠ .variable := by simp only [beq_iff_eq] at hd; rw [hd]; decide
+      cases r with
+      | nil => simp [takeStringT] at h
+      | cons p r4 =>
+        by_cases hp : (p.2 == TokType.string) = true
+        · simp only [takeStringT, hp, if_true] at h
+          have hpv : p.2 ≠ .variable := by simp only [beq_iff_eq] at hp; rw [hp]; decide
+          cases hte : takeExtractorT rx r4 with
+          | error x => simp [hte] at h
+          | ok a =>
+            obtain ⟨ex, ts4⟩ := a
+            simp only [hte, Except.ok.injEq, Prod.mk.injEq] at h
+            have := takeExtractorT_consumed rx r4 ex ts4 (VarOK_tail (VarOK_tail hv)) hte
+            rw [← h.2]
+            exact Consumed.cons hdv (Consumed.cons hpv this)
+        · simp [takeStringT, hp] at h
+    · simp [skipDotT, hd] at h
+
+theorem word_not_dollar : startsDollar sQuery = false ∧ startsDollar sPath = false ∧ startsDollar sHeader = false ∧
+    startsDollar sBody = false := by decide
+
+theorem parseRequestT_consumed (emb : Variant) (rx : RxOracle) (ts : List VT) (n : Node) (ts' : List VT)
+    (hv : VarOK ts) (h : parseRequestT emb rx ts = .ok (n, ts')) : Consumed ts ts' := by
+  obtain ⟨w1, w2, w3, w4⟩ := word_not_dollar
+  cases ts with
+  | nil => simp [parseRequestT, skipDotT] at h
+  | cons d r =>
+    by_cases hd : (d.2 == TokType.dot) = true
+    · have hdv : d.2 ≠ .variable := by simp only [beq_iff_eq] at hd; rw [hd]; decide
+      cases r with
+      | nil => simp [parseRequestT, skipDotT, hd] at h
+      | cons loc r2 =>
+        have hv2 : VarOK (loc :: r2) := VarOK_tail hv
+        simp only [parseRequestT, skipDotT, hd, if_true] at h
+        by_cases hl : (loc.1 == sQuery || loc.1 == sPath || loc.1 == sHeader) = true
+        · have hlv : loc.2 ≠ .variable := by
+            apply not_variable_of_word loc r2 hv2
+            simp only [Bool.or_eq_true, beq_iff_eq] at hl
+            rcases hl with (hl | hl) | hl <;> rw [hl] <;> assumption
+          simp only [hl, if_true] at h
+          exact Consumed.cons hdv (Consumed.cons hlv
+            (namedTailT_consumed rx (Node.nonBodyRequest loc.1) r2 n ts' (VarOK_tail hv2) h))
+        · simp only [hl, Bool.false_eq_true, if_false] at h
+          by_cases hb : (loc.1 == sBody) = true
+          · have hlv : loc.2 ≠ .variable := by
+              apply not_variable_of_word loc r2 hv2
+              simp only [beq_iff_eq] at hb
+              rw [hb]; exact w4
+            simp only [hb, if_true] at h
+            exact Consumed.cons hdv (Consumed.cons hlv (parseBodyRefT_consumed emb _ r2 n ts' h))
+          · simp [hb] at h
+    · simp [parseRequestT, skipDotT, hd] at h
+
+theorem parseResponseT_consumed (emb : Variant) (rx : RxOracle) (ts : List VT) (n : Node) (ts' : List VT)
+    (hv : VarOK ts) (h : parseResponseT emb rx ts = .ok (n, ts')) : Consumed ts ts' := by
+  obtain ⟨w1, w2, w3, w4⟩ := word_not_dollar
+  cases ts with
+  | nil => simp [parseResponseT, skipDotT] at h
+  | cons d r =>
+    by_cases hd : (d.2 == TokType.dot) = true
+    · have hdv : d.2 ≠ .variable := by simp only [beq_iff_eq] at hd; rw [hd]; decide
+      cases r with
+      | nil => simp [parseResponseT, skipDotT, hd] at h
+      | cons loc r2 =>
+        have hv2 : VarOK (loc :: r2) := VarOK_tail hv
+        simp only [parseResponseT, skipDotT, hd, if_true] at h
+        by_cases hl : (loc.1 == sHeader) = true
+        · have hlv : loc.2 ≠ .variable := by
+            apply not_variable_of_word loc r2 hv2
+            simp only [beq_iff_eq] at hl
+            rw [hl]; exact w3
+          simp only [hl, if_true] at h
+          exact Consumed.cons hdv (Consumed.cons hlv
+            (namedTailT_consumed rx (fun p ex => Node.headerResponse p ex) r2 n ts' (VarOK_tail hv2) h))
+        · simp only [hl, Bool.false_eq_true, if_false] at h
+          by_cases hb : (loc.1 == sBody) = true
+          · have hlv : loc.2 ≠ .variable := by
+              apply not_variable_of_word loc r2 hv2
+              simp only [beq_iff_eq] at hb
+              rw [hb]; exact w4
+            simp only [hb, if_true] at h
+            exact Consumed.cons hdv (Consumed.cons hlv (parseBodyRefT_consumed emb _ r2 n ts' h))
+          · simp [hb] at h
+    · simp [parseResponseT, skipDotT, hd] at h
+
+theorem parseVariableT_ok (emb : Variant) (rx : RxOracle) (v : Str) (ts : List VT) (n : Node) (ts' : List VT)
+    (hv : VarOK ts) (h : parseVariableT emb rx v ts = .ok (n, ts')) : isKw v = true ∧ Consumed ts ts' := by
+  unfold parseVariableT at h
+  unfold isKw
+  split at h
+  · rename_i hk; simp only [Except.ok.injEq, Prod.mk.injEq] at h; rw [← h.2]; exact ⟨by simp [hk], Consumed.refl _⟩
+  · split at h
+    · rename_i hk; simp only [Except.ok.injEq, Prod.mk.injEq] at h; rw [← h.2]; exact ⟨by simp [hk], Consumed.refl _⟩
+    · split at h
+      · rename_i hk; simp only [Except.ok.injEq, Prod.mk.injEq] at h; rw [← h.2]
+        exact ⟨by simp [hk], Consumed.refl _⟩
+      · split at h
+        · rename_i hk; exact ⟨by simp [hk], parseRequestT_consumed emb rx ts n ts' hv h⟩
+        · split at h
+          · rename_i hk; exact ⟨by simp [hk], parseResponseT_consumed emb rx ts n ts' hv h⟩
+          · cases h
+
+theorem consOk_ok {n : Node} {r : Except PErr (List Node)} {ns : List Node} (h : consOk n r = .ok ns) :
+    ∃ ns', r = .ok ns' := by
+  cases r with
+  | error e => simp [consOk] at h
+  | ok ns' => exact ⟨ns', rfl⟩
+
+theorem parseFT_variables_known (cfg : PCfg) (rx : RxOracle) (f : Nat) (o : Bool) (vts : List VT) (ns : List Node)
+    (hv : VarOK vts) (h : parseFT cfg rx f o vts = .ok ns) : ∀ x ∈ vts, x.2 = .variable → isKw x.1 = true := by
+  induction f generalizing o vts ns with
+  | zero => simp [parseFT] at h
+  | succ f ih =>
+    cases vts with
+    | nil => simp
+    | cons t ts =>
+      have hvt := VarOK_tail hv
+      simp only [parseFT] at h
+      intro x hx hxv
+      simp only [List.mem_cons] at hx
+      cases ht : t.2
+      case «variable» =>
+        simp only [ht] at h
+        cases hp : parseVariableT cfg.embBody rx t.1 ts with
+        | error e => simp [hp] at h
+        | ok a =>
+          obtain ⟨n, ts'⟩ := a
+          simp only [hp] at h
+          obtain ⟨hk, c, hc, hcv⟩ := parseVariableT_ok cfg.embBody rx t.1 ts n ts' hvt hp
+          obtain ⟨ns', hns'⟩ := consOk_ok h
+          have hv' : VarOK ts' := fun y hy => hvt y (by rw [hc]; simp [hy])
+          rcases hx with rfl | hx
+          · exact hk
+          · rw [hc, List.mem_append] at hx
+            rcases hx with hx | hx
+            · exact absurd hxv (hcv x hx)
+            · exact ih _ _ _ hv' hns' x hx hxv
+      all_goals
+        simp only [ht] at h
+        have hx' : x ∈ ts := by
+          rcases hx with rfl | hx
+          · rw [ht] at hxv; cases hxv
+          · exact hx
+        first
+          | (obtain ⟨ns', hns'⟩ := consOk_ok h; exact ih _ _ _ hvt hns' x hx' hxv)
+          | (split at h
+             · cases h
+             · exact ih _ _ _ hvt h x hx' hxv)
+          | (split at h
+             · exact ih _ _ _ hvt h x hx' hxv
+             · cases h)
+          | (split at h
+             · exact ih _ _ _ hvt h x hx' hxv
+             · obtain ⟨ns', hns'⟩ := consOk_ok h; exact ih _ _ _ hvt hns' x hx' hxv)
+
+/-- a successfully parsed expression contains no `$`-word other than the five keywords -/
+theorem parse_variables_known (cfg : PCfg) (rx : RxOracle) (e : Str) (ns : List Node)
+    (h : parse cfg rx e = .ok ns) : ∀ t ∈ tokenize e, t.type = .variable → isKw t.value = true := by
+  rw [parse_eq_parseT] at h
+  intro t ht htv
+  have := parseFT_variables_known cfg rx _ false (lexVT e) ns (lexVT_varOK e.length e (Nat.le_refl _)) h
+    (vt t) (by simp only [lexVT, List.mem_map]; exact ⟨t, ht, rfl⟩) htv
+  exact this
+
 end SV.Proofs.C10
